@@ -140,6 +140,13 @@ pub fn dispatch(name: &str, args: &[&str]) -> Option<String> {
             raw.extend(b"\r\n");
             let mut rd = crate::http::Scripted::new(vec![raw]);
             let request = Request::from_stream(&mut rd, observed_peer).unwrap();
+            // with the cache on, an unlisted client (192.0.2.200 is never on a generated list) fetches the same URI first, so
+            // that the answer to the client under test may come from the cache
+            if args[3] == "1" {
+                let mut warm = crate::http::Scripted::new(vec![b"GET / HTTP/1.1\r\nHost: x\r\n\r\n".to_vec()]);
+                let warm_req = Request::from_stream(&mut warm, "192.0.2.200:1".parse().unwrap()).unwrap();
+                let _ = humphrey_server::server::verif_request_handler(warm_req, st.clone(), 0, 0);
+            }
             // run twice when the cache is on so that the second answer may come from the cache
             let mut out = String::new();
             for _ in 0..(if args[3] == "1" { 2 } else { 1 }) {
